@@ -220,7 +220,7 @@ def view (fixed : Bool) (cfg : Config) (c : Client) (user : String) (ip : String
           if !sigOK then .resp { status := 400, problem := "unknown-signature-type", ip, user }
           else if tokenOpen cfg kc.token then
             .resp { status := 200, ip, user,
-                    events := [⟨"getkey", kc.token, n⟩, ⟨"sign", kc.token, n⟩] }
+                    events := [⟨"getkey", kc.token, kc.name⟩, ⟨"sign", kc.token, kc.name⟩] }
           else .resp { status := 500, problem := "missing-token", ip, user }
         else forbidden ip user
       | .panic s => .panic s ip
@@ -323,7 +323,7 @@ def Entitled (cfg : Config) (req : Req) (n : String) : Prop :=
 /-- the same with the witnesses exposed, plus: the token calls go to the resolved key's token -/
 def EntitledFor (cfg : Config) (req : Req) (n : String) (o : Outcome) : Prop :=
   ∃ ch c t, presented cfg req = some ch ∧ c ∈ cfg.clients ∧ recognises c ch = true ∧
-    resolve cfg n = some t ∧ (∃ r, r ∈ c.roles ∧ r ∈ t.roles) ∧ ∀ e ∈ o.events, e.token = t.token
+    resolve cfg n = some t ∧ (∃ r, r ∈ c.roles ∧ r ∈ t.roles) ∧ ∀ e ∈ o.events, e.token = t.token ∧ e.key = t.name
 
 /-- a request is refused: nothing was signed or disclosed, no token was touched, and the answer is one of
     the refusal codes.  400 only for a missing `key`/`filename` parameter (checked before authorisation);
